@@ -112,3 +112,38 @@ Fixpoint failing_from {I O} (check : I -> O -> bool) (n : nat)
 
 Definition failing {I O} (check : I -> O -> bool) (cases : list (I * O)) : list nat :=
   failing_from check 0%nat cases.
+
+(** ** Python [str.isspace] / [strip] / [lower] *)
+
+(** Exactly the code points for which CPython 3.12 [str.isspace] is true. *)
+Definition py_isspace (c : char) : bool :=
+  ((9 <=? c) && (c <=? 13)) || ((28 <=? c) && (c <=? 32)) || (c =? 133) || (c =? 160)
+  || (c =? 5760) || ((8192 <=? c) && (c <=? 8202)) || (c =? 8232) || (c =? 8233)
+  || (c =? 8239) || (c =? 8287) || (c =? 12288).
+
+Fixpoint str_lstrip (x : str) : str :=
+  match x with
+  | c :: t => if py_isspace c then str_lstrip t else x
+  | [] => []
+  end.
+
+Fixpoint str_rstrip (x : str) : str :=
+  match x with
+  | [] => []
+  | c :: t =>
+      match str_rstrip t with
+      | [] => if py_isspace c then [] else [c]
+      | t' => c :: t'
+      end
+  end.
+
+Definition str_strip (x : str) : str := str_rstrip (str_lstrip x).
+
+(** [str.lower] per code point, exact below U+0100 (ASCII and Latin-1); the
+    identity above.  The generators draw cased letters from that range only;
+    caseless scripts (CJK ...) are unaffected.  Stated in the trusted base. *)
+Definition py_lower_c (c : char) : char :=
+  if is_upper c then c + 32
+  else if (192 <=? c) && (c <=? 222) && negb (c =? 215) then c + 32
+  else c.
+Definition py_lower (x : str) : str := map py_lower_c x.
